@@ -1749,6 +1749,9 @@ def flag_search(g, starts, targets, avoid=(), edge_ok=None, env0=None, limit: in
             init.append((s[0], frozenset((s[1] or {}).items())))
         else:
             init.append((s, frozenset((env0 or {}).items())))
+    for st in init:
+        if st[0] in targets:
+            return [st[0]]                # the failing statement leads there directly
     prev = {st: None for st in init}
     dq = _dq(init)
     n_ = 0
